@@ -495,7 +495,7 @@ class reader( object ):
             cur			= self.advance()
             adv			= cur + ( lookahead or 0.0 )
             while True:
-                if ts > adv:
+                if ts is not None and ts > adv:
                     cur		= self.advance()
                     adv		= cur + ( lookahead or 0.0 )
                     if ts > adv:
@@ -515,6 +515,11 @@ class reader( object ):
                     n,(ts,sn,js) = parse_record( fd, n=n, encoding=encoding )
                 except StopIteration:
                     break
+                except ValueError as exc:
+                    # Unparsable timestamp/serial or missing fields (I/O errors still propagate); yield
+                    # the documented (None,None) so the caller may power thru to the next record.
+                    log.warning( "%s Ignoring corrupt record in %s after line %d: %s", self, self.name+f, n, exc )
+                    ts,js	= None,None
 
                 # a valid (ts,js) has been parsed; loop to advancing historical time, and return it
                 # when appropriate.
